@@ -85,7 +85,7 @@ func (p *jparser) value(depth int) jv {
 	if depth > p.fl.Depth {
 		p.fl.Depth = depth
 	}
-	if depth > 5000 {
+	if depth > 40000 {
 		p.fail("too deep")
 		return jv{}
 	}
